@@ -144,8 +144,11 @@ def r01_4(ctx, repo):
     fn = repo.method(CLS, '__init__')
     construct = CLS + '.__init__'
     d = _defs(fn, 'self._n_obs')
-    if len(d) == 1 and U(d[0].value).replace(' ', '') == \
-            '[len(obs)forobsinobservations]':
+    from ..seqs import SeqEval, END
+    val = SeqEval(['observations', 'self._observations']).ev(
+        d[0].value) if len(d) == 1 else None
+    if val is not None and len(val) == 1 and val[0].lo == '0' and \
+            val[0].hi == END and val[0].tf == 'len($)' and not val[0].sub:
         ctx.ok(rule, repo.loc(d[0], CLS, fn.name), construct,
                'n_observations = one count per output')
     else:
